@@ -171,6 +171,8 @@ def judge_directed(mods, events, rep, name, prop):
     for e, why in bad:
         m = mods[e["_mi"]]
         key = classify_lost_abort(m["src"], e["args"], e["_tr"], e["_fn"]) if "aborts" in why else None
+        if key:
+            e["_explained"] = key          # this run shows a recorded finding (diagnosed by the stage chain)
         rep.violation(key or vlib.canon_hash([m["family"], fn_source(m["src"], e["_fn"]), e["args"], e["_tr"] if prop == "C14" else ""]),
                       {"src": m["src"], "fn": e["_fn"], "args": e["args"], "observed": e["out"], "tracing": e["_tr"], "family": m["family"],
                        "function": fn_source(m["src"], e["_fn"])},
@@ -486,6 +488,8 @@ def c14(tier):
     for e, why in bad:
         m = mods[e["_mi"]]
         key = classify_lost_abort(m["src"], e["args"], e["_tr"]) if "aborts" in why else None
+        if key:
+            e["_explained"] = key          # this run shows a recorded finding (diagnosed by the stage chain)
         rep.violation(key or vlib.canon_hash([m["src"], e["args"], e["_tr"]]),
                       {"src": m["src"], "fn": "entry", "args": e["args"], "observed": e["out"], "tracing": e["_tr"]},
                       "under tracing %s: Obs_Aiken: %s" % (e["_tr"], why))
@@ -494,8 +498,10 @@ def c14(tier):
     for e in events:
         groups.setdefault((e["_mi"], e["_ai"]), []).append(e)
     diverging = 0
+    # a run already attributed to a recorded finding (it lost an abort the source asks for, and the stage chain shows where) necessarily
+    # differs from the runs of the same program that kept the abort: that difference is the recorded finding again, not a new one
     for (mi, ai), es in groups.items():
-        outs = set(cj({"o": e["out"]["o"], "d": e["out"].get("d")}) for e in es)
+        outs = set(cj({"o": e["out"]["o"], "d": e["out"].get("d")}) for e in es if not e.get("_explained"))
         if len(outs) > 1:
             diverging += 1
             m = mods[mi]
@@ -508,7 +514,7 @@ def c14(tier):
     for e in devents:
         dgroups.setdefault((e["_mi"], e["_fn"], e["_ai"]), []).append(e)
     for (mi, fn, ai), es in dgroups.items():
-        outs = set(cj({"o": e["out"]["o"], "d": e["out"].get("d")}) for e in es)
+        outs = set(cj({"o": e["out"]["o"], "d": e["out"].get("d")}) for e in es if not e.get("_explained"))
         if len(outs) > 1:
             diverging += 1
             m = dmods[mi]
